@@ -99,9 +99,10 @@ class PolyEval(Evaluator):
     def __init__(self, attr, extra_env=None):
         super().__init__(extra_env or {}, attr, hooks())
         self.masked_stores = {}
+        self.result_names = set()      # the local(s) the function returns: stores into them are the branches of the result
 
     def bind(self, t, v):
-        if isinstance(t, ast.Subscript) and isinstance(t.value, ast.Name) and t.value.id == "form_factor":
+        if isinstance(t, ast.Subscript) and isinstance(t.value, ast.Name) and t.value.id in self.result_names:
             self.masked_stores[ast.unparse(t.slice)] = v
             return
         super().bind(t, v)
@@ -116,7 +117,7 @@ class PolyEval(Evaluator):
     def run(self, stmts):
         out = None
         for s in stmts:
-            if isinstance(s, ast.AugAssign) and isinstance(s.target, ast.Name) and s.target.id == "form_factor":
+            if isinstance(s, ast.AugAssign) and isinstance(s.target, ast.Name) and s.target.id in self.result_names:
                 continue
             r = super().run([s])
             if isinstance(s, ast.Return):
@@ -126,6 +127,7 @@ class PolyEval(Evaluator):
 
 def evaluate(fn, extra_env=None):
     ev = PolyEval(base_env(), extra_env)
+    ev.result_names = {n.value.id for n in ast.walk(fn.node) if isinstance(n, ast.Return) and isinstance(n.value, ast.Name)}
     body = [s for s in fn.node.body if not (isinstance(s, ast.Expr) and isinstance(s.value, ast.Constant))]
     ret = ev.run(body)
     return ret, ev
